@@ -228,6 +228,7 @@ func (E *Engine) unop(st *State, x *ssa.UnOp) []*State {
 		E.nilCheck(st, x, v, "dereferenced pointer")
 		lv := E.ptrLV(v)
 		E.lockCheck(st, x, lv, false)
+		E.sharedRead(st, lv)
 		r := E.load(st, st.heap, lv)
 		r = retype(r, x.Type())
 		st.assume(E.loadFacts(st, r)...)
@@ -303,7 +304,9 @@ func (E *Engine) storeTo(st *State, in ssa.Instruction, addr, v *Val) {
 		}
 	}
 	E.lockCheck(st, in, lv, true)
+	E.trackWrite(st, in, lv, v)
 	E.store(st, lv, v)
+	E.sharedWrite(st, in, lv)
 }
 
 func (E *Engine) fieldAddr(st *State, x *ssa.FieldAddr) *Val {
